@@ -56,6 +56,19 @@ class Enumeration(object):
         self.tiers = tiers
 
 
+def after_every_prelude(battery, name="battery_after_every_kind_of_earlier_connection"):
+    """Enumeration: each case of a small fixed battery, preceded by EVERY kind of earlier connection (build.PRELUDE_KINDS)
+    x on the same WebSocket object / another one x ended by EOF / reset."""
+    def make():
+        from . import build
+        for kind in build.PRELUDE_KINDS:
+            for same in (True, False):
+                for end in build.PRELUDE_ENDS:
+                    for case in battery:
+                        yield dict(case, prelude={"kind": kind, "same": same, "end": end})
+    return Enumeration(name, make, exhaustive=True)
+
+
 class Prop(object):
     id = None
     level = "exploration"
@@ -216,8 +229,15 @@ def guarded_run(prop, case):
     from . import simnet
     # the limit applies to ONE simulated execution: cases of the fault enumerations run thousands
     simnet.ON_RUN = lambda: signal.alarm(CASE_WALL_LIMIT)
+    spec = case.get("prelude") if isinstance(case, dict) else None
     try:
+        if spec:
+            # an earlier connection in the same process precedes every simulated execution of this case
+            from . import build
+            simnet.CASE_PRELUDE = build.prelude(spec)
         res = prop.run_case(case)
+        if spec and isinstance(res.labels, set):
+            res.labels.add("after_earlier_connection:" + ("same_object" if spec.get("same") else "other_object"))
         if simnet.BUG_LOG:
             # an error inside the simulation, whatever the client under test made of it
             raise boot.HarnessError("simulation error: %s (case %s)" % (simnet.BUG_LOG[0], canon(case)[:400]))
@@ -227,6 +247,7 @@ def guarded_run(prop, case):
     except WallClockHang as hang:
         return failed("no_progress", str(hang))
     finally:
+        simnet.CASE_PRELUDE = None
         signal.alarm(0)
 
 
